@@ -297,3 +297,23 @@ M("C11", "in-operands-swapped", ENT, "    return Comparator(container, item, ope
 M("C11", "contains-not-swapping", ENT, "    return in_(item, container)", "    return in_(container, item)", "contains#slots")
 R("C11", "elif-reordered", MTF, "        if self.attr._is_iterable_ and not self.is_iterable_value:\n            condition = contains(self.attr, self.assigned_variable)\n        elif not self.attr._is_iterable_ and self.is_iterable_value:\n            condition = in_(self.attr, self.assigned_variable)\n",
   "        if not self.attr._is_iterable_ and self.is_iterable_value:\n            condition = in_(self.attr, self.assigned_variable)\n        elif self.attr._is_iterable_ and not self.is_iterable_value:\n            condition = contains(self.attr, self.assigned_variable)\n")
+
+# ------------------------------------------------------------------------------------- C08
+RLF = "krrood/entity_query_language/rule.py"
+CSF = "krrood/entity_query_language/conclusion_selector.py"
+M("C08", "refinement-graph-only", RLF, "    new_branch._node_.weight = RDREdge.Refinement\n    _replace_in_parent(prev_parent, current_node, new_conditions_root)\n", "    new_branch._node_.weight = RDREdge.Refinement\n    new_conditions_root._parent_ = prev_parent\n", "refinement#slot-updated")
+M("C08", "always-right-slot", RLF, "        if parent.left is old:\n            parent.left = new\n        else:\n            parent.right = new\n", "        parent.right = new\n", "slot-updated")
+M("C08", "climb-one-level", RLF, "    while isinstance(current_node._parent_, (Alternative, Next)) or (\n        isinstance(current_node._parent_, ExceptIf)\n        and current_node is current_node._parent_.left\n    ):\n        current_node = current_node._parent_\n",
+  "    if isinstance(current_node._parent_, (Alternative, Next)) or (\n        isinstance(current_node._parent_, ExceptIf)\n        and current_node is current_node._parent_.left\n    ):\n        current_node = current_node._parent_\n", "alternative#")
+M("C08", "no-climb", RLF, "    while isinstance(current_node._parent_, (Alternative, Next)) or (\n        isinstance(current_node._parent_, ExceptIf)\n        and current_node is current_node._parent_.left\n    ):\n        current_node = current_node._parent_\n", "", "alternative#")
+M("C08", "alternative-as-next", RLF, "        new_conditions_root = Alternative(current_node, new_branch)\n", "        new_conditions_root = Next(current_node, new_branch)\n", "alternative#wraps-node-and-branch")
+M("C08", "branch-on-left", RLF, "        new_conditions_root = Alternative(current_node, new_branch)\n", "        new_conditions_root = Alternative(new_branch, current_node)\n", "alternative#wraps-node-and-branch")
+M("C08", "returns-selector", RLF, "    _replace_in_parent(prev_parent, current_node, new_conditions_root)\n    return new_conditions_root.right\n\n\ndef alternative(", "    _replace_in_parent(prev_parent, current_node, new_conditions_root)\n    return new_conditions_root\n\n\ndef alternative(", "refinement#returns-new-branch")
+M("C08", "graph-edge-missing", RLF, "    new._parent_ = parent\n    if isinstance(parent, BinaryOperator):", "    if isinstance(parent, BinaryOperator):", "graph-agrees")
+M("C08", "exceptif-left-always", CSF, "            if not right_yielded:\n                yield from self.yield_and_update_conclusion(\n                    left_value, self.left._conclusion_\n                )", "            yield from self.yield_and_update_conclusion(\n                left_value, self.left._conclusion_\n            )", "left-only-without-exception")
+M("C08", "exceptif-false-right-counts", CSF, "                if right_value.is_false:\n                    continue\n", "", "false-right-skipped")
+M("C08", "exceptif-right-from-sources", CSF, "self.right._evaluate__(left_value.bindings, parent=self)", "self.right._evaluate__(sources, parent=self)", "right-under-left-binding")
+M("C08", "alternative-right-first", CSF, "            if not self.left._is_false_:\n                self.update_conclusion(output, self.left._conclusion_)\n            elif not self.right._is_false_:\n                self.update_conclusion(output, self.right._conclusion_)", "            if not self.right._is_false_:\n                self.update_conclusion(output, self.right._conclusion_)\n            elif not self.left._is_false_:\n                self.update_conclusion(output, self.left._conclusion_)", "first-true-branch")
+M("C08", "no-clear-next", CSF, "            yield OperationResult(output.bindings, self._is_false_, self)\n            self._conclusion_.clear()\n", "            yield OperationResult(output.bindings, self._is_false_, self)\n", "clear-after-emission")
+M("C08", "next-else-branch", CSF, "            if self.right_evaluated:\n                self.update_conclusion(output, self.right._conclusion_)", "            elif self.right_evaluated:\n                self.update_conclusion(output, self.right._conclusion_)", "both-branches")
+R("C08", "inline-helper", RLF, "    _replace_in_parent(prev_parent, current_node, new_conditions_root)\n    return new_conditions_root.right\n\n\ndef alternative(", "    new_conditions_root._parent_ = prev_parent\n    if isinstance(prev_parent, BinaryOperator):\n        if prev_parent.left is current_node:\n            prev_parent.left = new_conditions_root\n        else:\n            prev_parent.right = new_conditions_root\n    return new_conditions_root.right\n\n\ndef alternative(")
